@@ -49,8 +49,8 @@ MODELLED = [
 NOT_RUNNABLE = [
     "stock sklearn regressors with strategies direct/recursive/dirrec: `y_pred[i] = "
     "estimator.predict(X_pred)` assigns a length-1 array to a scalar slot, which numpy 2.4 rejects "
-    "(TypeError: only 0-d arrays can be converted); the doubles return a 0-d array for a "
-    "single-row single-target predict and a (1, k) array for k targets",
+    "(ValueError: setting an array element with a sequence; multioutput works); the doubles return "
+    "a 0-d array for a single-row single-target predict and a (1, k) array for k targets",
 ]
 
 
